@@ -1151,7 +1151,13 @@ func c15Units(tier string) []hx.Unit {
 	var units []hx.Unit
 	// window
 	for _, epp := range []uint64{2, 4, 8} {
-		for _, fork := range []uint64{0, 1, 3} {
+		forks := []uint64{0, 1, 3}
+		if epp == 8 {
+			// a fork two epochs before a period boundary: the preparation of the next period (five epochs ahead) fell
+			// before the fork, so the fork handling itself has to set that period up
+			forks = append(forks, 6)
+		}
+		for _, fork := range forks {
 			// clock positions: every slot start of the first three periods (quick: of the first two, and for the
 			// long period every other slot of the second) -- this includes genesis, the first slot of a period,
 			// mid period, the last epoch of a period, the fork epoch and the epoch before it
@@ -1222,7 +1228,7 @@ func init() {
 	hx.Register(&hx.Prop{
 		ID:    "C15",
 		Title: "Sync committee members message every slot of their period, independently",
-		Rule: "window: EPOCHS_PER_SYNC_COMMITTEE_PERIOD in {2,4,8} x ALTAIR_FORK_EPOCH in {0,1,3} x clock at every slot start of the first three periods (quick: two) x {vouch started there and run to the end of the periods it has to set up, with every membership pattern over those periods; one direct scheduling call for the current / the next period} x 3 member sets, on the real controller + real scheduler + real chain time with a recording messenger, compared with the reference window [max(first-1, now, fork) .. last-1] and the configured delay; " +
+		Rule: "window: EPOCHS_PER_SYNC_COMMITTEE_PERIOD in {2,4,8} x ALTAIR_FORK_EPOCH in {0,1,3} (and 6 for the period of 8 epochs: two epochs before a boundary) x clock at every slot start of the first three periods (quick: two) x {vouch started there and run to the end of the periods it has to set up, with every membership pattern over those periods; one direct scheduling call for the current / the next period} x 3 member sets, on the real controller + real scheduler + real chain time with a recording messenger, compared with the reference window [max(first-1, now, fork) .. last-1] and the configured delay; " +
 			"independence: 3 members x {ok, account missing, root signature missing}^3 x 3 position sets through the real controller, messenger, aggregator and signer over three slots with a head root scripted per slot; " +
 			"selection: 5 (size, subnets, target) configurations (modulus 1 and >1) x 1-3 members x boundary positions x selection hash residues {0, 1, modulus-1} x one member without account, on the real messenger Prepare with the real signer, recomputed with crypto/sha256; " +
 			"non-trivial = first period of the chain, clock inside a member period or before the fork / a member without account or signature / every selection case; distinct = distinct outcome classes",
